@@ -43,3 +43,32 @@ def get_history_cache_key(messages: List[dict]) -> str:
     history_cache_key = ":".join(key_items)
 
     return history_cache_key
+
+
+def get_events_history_cache_key(messages: List[dict]) -> str:
+    """Compute an injective key for a sequence of messages.
+
+    Unlike `get_history_cache_key`, every message contributes, the role is part of the key
+    and every field is length-prefixed, so two different sequences of messages can never
+    share a key (no matter what the contents are).
+
+    Args:
+        messages: The list of messages.
+
+    Returns:
+        A string that identifies the sequence of messages.
+    """
+    key_items = []
+
+    for msg in messages:
+        role = msg["role"]
+        if role in ("user", "assistant"):
+            text = msg["content"]
+        elif role == "event":
+            text = json.dumps(msg["event"])
+        else:
+            text = json.dumps(msg.get("content"))
+
+        key_items.append(f"{len(role)}:{role}{len(text)}:{text}")
+
+    return "".join(key_items)
